@@ -835,11 +835,10 @@ func c09PartQ(r *vlib.Run, item *int) {
 	}
 
 	tiny := mkalpha("EHA", []string{"err"})
-	small := mkalpha("EHA", []string{"err", "r:SY"})
 	full := mkalpha("ESHA", []string{"err", "ign", "r:SY", "r:BR"})
 	plain := mkalpha("EHA", nil)
 
-	shapes := vlib.Pick(r, [][][]c09event{{tiny, tiny}}, [][][]c09event{{full, full}, {small, plain, plain}})
+	shapes := vlib.Pick(r, [][][]c09event{{tiny, tiny}}, [][][]c09event{{full, full}, {tiny, plain, plain}})
 
 	var shapetxt []string
 
@@ -1148,19 +1147,16 @@ func c09Scenarios(thorough bool) []c09scfg {
 	return cfgs
 }
 
-func c09PartS(r *vlib.Run, item *int) {
+func c09PartS(r *vlib.Run) {
 	bound := vlib.Pick(r, 1, 2)
 	r.Set("s_preemption_bound", bound)
 
 	cfgs := c09Scenarios(r.Thorough())
 	r.Set("s_scenarios_enumerated", len(cfgs))
 
-	for _, c := range cfgs {
-		*item++
-		if !r.Mine(*item) || r.Expired() {
-			continue
-		}
+	sh, nsh := r.Shard()
 
+	for _, c := range cfgs {
 		c := c
 		id := c.id()
 		build := func() vsched.Scenario { return c09sBuild(c) }
@@ -1182,7 +1178,13 @@ func c09PartS(r *vlib.Run, item *int) {
 			continue
 		}
 
-		res := vsched.Explore(vsched.Config{Name: id, Bound: bound, Build: build, Expired: r.Expired, MaxFound: 3, Horizon: 5000})
+		if r.Expired() {
+			continue
+		}
+
+		// every shard explores every scenario, each a disjoint set of first-level subtrees
+		res := vsched.Explore(vsched.Config{Name: id, Bound: bound, Build: build, Expired: r.Expired, MaxFound: 3, Horizon: 5000,
+			Mine: func(l int) bool { return nsh <= 1 || l%nsh == sh }, Secondary: sh != 0})
 		if res.EngineError != "" {
 			panic("engine error in " + id + ": " + res.EngineError)
 		}
@@ -1190,8 +1192,11 @@ func c09PartS(r *vlib.Run, item *int) {
 		r.TraceN(res.Executions)
 		r.TransitionN(res.Points)
 		r.EvalN(res.Executions)
-		r.Add("s_scenarios", 1)
 		r.Add("s_executions", res.Executions)
+
+		if sh == 0 {
+			r.Add("s_scenarios", 1)
+		}
 
 		if res.Capped != "" {
 			r.Cap(res.Capped + " in " + id)
@@ -1214,7 +1219,9 @@ func c09PartS(r *vlib.Run, item *int) {
 			r.Violation(id+"#"+vsched.ChoicesString(f.Choices), f.Fail.Sig, f.Fail.Detail+fmt.Sprintf(" (preemptions=%d)", f.Preempt), nil)
 		}
 
-		r.Sample(map[string]any{"scenario": id, "executions": res.Executions, "distinct_outcomes": len(res.Outcomes)})
+		if sh == 0 {
+			r.Sample(map[string]any{"scenario": id, "executions_of_shard_0": res.Executions, "distinct_outcomes_of_shard_0": len(res.Outcomes)})
+		}
 	}
 }
 
@@ -1234,7 +1241,7 @@ func TestVerifC09(t *testing.T) {
 	var item int
 
 	if rid, rp := r.Replaying(); !rp || strings.HasPrefix(rid, "s/") {
-		c09PartS(r, &item)
+		c09PartS(r)
 	}
 
 	if rid, rp := r.Replaying(); !rp || strings.HasPrefix(rid, "q") {
